@@ -35,6 +35,21 @@ def run(ctx):
         for j, l in enumerate(lines):
             e, inp = (l.split('\t', 1) + ['null'])[:2]
             corpus.append(mkcase('K%s%d' % (f[5:8], j), lib.new_cfg(select=[e + '=x']), inp.encode('utf8')))
+    # every variadic function with 2..4 arguments, every pattern of absent (`.nothing`) arguments, four kinds of present ones:
+    # what an absent argument does (skipped, stops the evaluation, makes the result nothing) is part of each function's meaning
+    variadic = []
+    pools = {'num': ['1', '2.5', '-3', '.n'], 'str': ['"a"', '"é"', '""', '.s'], 'list': ['[1]', '[]', '["x", 2]', '.l'], 'mixed': ['1', '"a"', '[1]', 'true', 'null', '{"k": 1}']}
+    data = b'{"n": 7, "s": "str", "l": [3, 4], "o": {"a": 1}}'
+    k = 0
+    for f in exprgen.table():
+        if f['max'] is not None or f['name'] in ('exec', 'trigger', '|', 'define', ':', 'set'): continue
+        for n in range(max(2, f['min']), 5):
+            for mask in range(2 ** n):
+                for pn, pool in sorted(pools.items()):
+                    if ctx['tier'] == 'quick' and pn == 'mixed' and n == 4: continue
+                    args = ['.nothing' if (mask >> i) & 1 else pool[(k + i) % len(pool)] for i in range(n)]; k += 1
+                    variadic.append(mkcase('V%d' % k, lib.new_cfg(select=['(%s %s)=x' % (f['name'], ' '.join(args))]), data))
+    corpus += variadic
     # documentation examples
     docs = []; dmeta = {}
     for f in exprgen.table():
